@@ -18,15 +18,19 @@
 //!   step (a timer task that the scheduler runs only when it is the only runnable one). A waiter that is still blocked
 //!   at such a point although the pool is not empty is a lost wake-up.
 //!
-//! Oracle (only what the statement says):
-//!   stale-served        an acquire that started after the refresh to generation G completed returned a resource of an
-//!                       older generation
-//!   stale-readmit:*     a give-back (item / drop / raw with the truthful old discriminant) that started after the
-//!                       refresh to G completed re-admitted a resource of an older generation
-//!   stale-in-pool-at-end  after all threads finished, the pool holds a resource that is not of the last generation
-//!   overfill:*          `count()` > configured size
+//! Oracle (only what the statement says). Keys are `stale:<cause>:<symptom>`, `overfill:*`, `lost-wakeup`, `deadlock`:
+//!   symptom served          an acquire that started after the refresh to generation G completed returned a resource of
+//!                           an older generation
+//!   symptom readmit         a give-back (item / drop / raw with the truthful old discriminant) that started after the
+//!                           refresh to G completed re-admitted a resource of an older generation
+//!   symptom in-pool-at-end  after all threads finished, the pool holds a resource that is not of the last generation
+//!   cause                   the first wrong event in the history of that resource (attribution only, never a verdict):
+//!                           admitted by `give_back_resource_pool_item` although the item's discriminant was older than
+//!                           the pool's / handed out under a discriminant newer than its generation / admitted by
+//!                           drop or raw give-back under an older discriminant / unattributed
+//!   overfill:*              `count()` > configured size
 //!   lost-wakeup / deadlock  a caller stays blocked although the pool is not empty / nobody can move and nobody can
-//!                       time out
+//!                           time out
 //! plus, layer 1 only, the documented behaviour of the pool (`doc:*` keys: FIFO order, a current-generation resource
 //! is admitted iff the pool is not full, acquire on an empty pool ends with `AcquireTimeout`).
 
@@ -82,15 +86,24 @@ impl mithril_resource_pool::Reset for Res {
     }
 }
 
-/// Key of a staleness violation: `stale:<what the returned item claimed>:<return path>:<symptom>`.
-/// `item-disc-own`   = the item / call carried the generation of its resource, so the pool had what it needs to reject;
-/// `item-disc-newer` = the item was labelled with a newer discriminant than the generation of the resource inside.
-fn stale_key(symptom: &str, admitted_by: Option<(&str, u64)>, res_gen: u64) -> String {
-    match admitted_by {
-        Some((path, disc)) => {
-            format!("stale:{}:{path}:{symptom}", if disc > res_gen { "item-disc-newer" } else { "item-disc-own" })
-        }
-        None => format!("stale:unattributed:{symptom}"),
+/// Root causes a staleness violation is attributed to (first wrong event in the history of the resource).
+const CAUSE_ITEM: &str = "give_back_item-ignores-item-discriminant";
+const CAUSE_LABEL: &str = "acquire-labels-old-resource-with-new-discriminant";
+const CAUSE_NONE: &str = "unattributed";
+
+/// `stale:<cause>:<symptom>`; symptom = readmit | served | in-pool-at-end
+fn stale_key(cause: &str, symptom: &str) -> String {
+    format!("stale:{cause}:{symptom}")
+}
+
+/// cause of an admission of a resource of generation `res_gen`, returned through `path` by an item / call that
+/// carried `disc`, while the pool's discriminant was `pool_disc` (> res_gen)
+fn admission_cause(path: &str, disc: u64, pool_disc: u64) -> String {
+    if disc < pool_disc {
+        if path == "give_back_item" { CAUSE_ITEM.to_string() } else { format!("{path}-admitted-under-older-discriminant") }
+    } else {
+        // the label itself was newer than the resource: the damage was done when the item was created
+        CAUSE_LABEL.to_string()
     }
 }
 
@@ -210,7 +223,7 @@ fn seq_case(c: &SeqCase) -> Report {
                 trace.push(format!("{}{}{}", $path, if stale { "~" } else { "" }, if admitted { "+" } else { "-" }));
                 if admitted && stale {
                     fail!(
-                        stale_key("readmit", Some(($path, disc)), res_gen),
+                        stale_key(&admission_cause($path, disc, generation), "readmit"),
                         "resource #{id} of generation {res_gen} (returned with discriminant {disc}) was re-admitted while the pool is at generation {generation}"
                     );
                 }
@@ -233,7 +246,7 @@ fn seq_case(c: &SeqCase) -> Report {
                         let (id, res_gen, disc) = (item.id, item.generation, item.discriminant());
                         trace.push(format!("A{res_gen}"));
                         if res_gen < generation {
-                            fail!(stale_key("served", None, res_gen), "acquire handed out resource #{id} of generation {res_gen} (item discriminant {disc}) at generation {generation}");
+                            fail!(stale_key(CAUSE_NONE, "served"), "acquire handed out resource #{id} of generation {res_gen} (item discriminant {disc}) at generation {generation}");
                         }
                         if (id, res_gen) != (eid, egen) {
                             fail!("doc:fifo-order", "acquire handed out #{id} (gen {res_gen}), the FIFO model expected #{eid} (gen {egen})");
@@ -372,7 +385,7 @@ fn witness_give_back_item() -> bool {
     matches!(seq_case(&c).outcome, vcore::Outcome::Violation { ref key, .. } if key == KEY_F14)
 }
 
-const KEY_F14: &str = "stale:item-disc-own:give_back_item:readmit";
+const KEY_F14: &str = "stale:give_back_item-ignores-item-discriminant:readmit";
 
 // ------------------------------------------------------------------------------------------------------------------
 // layer 2: schedules (shuttle)
@@ -394,7 +407,60 @@ pub mod shim {
     use std::sync::{Arc, PoisonError};
     use std::time::Duration;
 
-    pub use shuttle::sync::{Mutex, MutexGuard};
+    pub use shuttle::sync::MutexGuard;
+
+    /// `std::sync::Mutex` on top of shuttle's. The only addition: every lock of a `Mutex<u64>` (the pool's
+    /// discriminant) notes the value seen by the locking task, so that the harness knows exactly which pool
+    /// generation an admission decision was made under (used only to *attribute* violations to a root cause).
+    #[derive(Debug, Default)]
+    pub struct Mutex<T> {
+        inner: shuttle::sync::Mutex<T>,
+    }
+
+    #[allow(dead_code)]
+    impl<T> Mutex<T> {
+        pub fn new(value: T) -> Self {
+            Mutex { inner: shuttle::sync::Mutex::new(value) }
+        }
+        pub fn lock(&self) -> LockResult<MutexGuard<'_, T>> {
+            let r = self.inner.lock();
+            if let Ok(g) = &r {
+                note_discriminant_read::<T>(&**g);
+            }
+            r
+        }
+        pub fn get_mut(&mut self) -> LockResult<&mut T> {
+            self.inner.get_mut()
+        }
+        pub fn into_inner(self) -> LockResult<T> {
+            self.inner.into_inner()
+        }
+    }
+
+    fn note_discriminant_read<T>(value: &T) {
+        if std::any::type_name::<T>() == "u64" && std::mem::size_of::<T>() == 8 {
+            // SAFETY: T is u64 (checked by name and size just above)
+            let d = unsafe { *(value as *const T as *const u64) };
+            if let Some(t) = shuttle::current::get_current_task() {
+                CTX.with(|c| {
+                    c.borrow_mut().last_disc_read.insert(usize::from(t), d);
+                });
+            }
+        }
+    }
+
+    /// forget / fetch the last discriminant value the calling task has read from the pool
+    pub fn clear_my_discriminant_read() {
+        if let Some(t) = shuttle::current::get_current_task() {
+            CTX.with(|c| {
+                c.borrow_mut().last_disc_read.remove(&usize::from(t));
+            });
+        }
+    }
+    pub fn my_last_discriminant_read() -> Option<u64> {
+        let t = shuttle::current::get_current_task()?;
+        CTX.with(|c| c.borrow().last_disc_read.get(&usize::from(t)).copied())
+    }
 
     struct Waiter {
         wid: u32,
@@ -413,6 +479,7 @@ pub mod shim {
         waits: u32,
         timeouts: u32,
         waits_by_task: std::collections::BTreeMap<usize, u32>,
+        last_disc_read: std::collections::BTreeMap<usize, u64>,
     }
 
     thread_local! {
@@ -745,8 +812,9 @@ mod conc {
         labels: StdMutex<BTreeSet<String>>,
         violations: StdMutex<Vec<(String, String)>>,
         nontrivial: AtomicBool,
-        /// resource id -> (path, discriminant) of the last give-back that admitted it
-        admits: StdMutex<std::collections::BTreeMap<u32, (String, u64)>>,
+        /// resource id -> root cause: the first wrong event in its history (admitted although the pool was at a
+        /// newer generation; or handed out under a label newer than its generation)
+        taint: StdMutex<std::collections::BTreeMap<u32, String>>,
     }
 
     impl ConcState {
@@ -762,9 +830,12 @@ mod conc {
         fn completed(&self) -> u64 {
             self.completed_gen.load(Ordering::SeqCst)
         }
-        fn stale_key(&self, symptom: &str, id: u32, res_gen: u64) -> String {
-            let a = self.admits.lock().unwrap().get(&id).cloned();
-            stale_key(symptom, a.as_ref().map(|(p, d)| (p.as_str(), *d)), res_gen)
+        fn stale_key(&self, symptom: &str, id: u32) -> String {
+            let cause = self.taint.lock().unwrap().get(&id).cloned();
+            stale_key(cause.as_deref().unwrap_or(CAUSE_NONE), symptom)
+        }
+        fn taint(&self, id: u32, cause: String) {
+            self.taint.lock().unwrap().entry(id).or_insert(cause);
         }
     }
 
@@ -817,17 +888,21 @@ mod conc {
                     self.st.label(format!("stale-giveback-notfull:{path}"));
                 }
             }
+            shim::clear_my_discriminant_read();
             if let Err(e) = call() {
                 self.st.violation(format!("unexpected-error:{path}"), format!("t{}: {e:#}", self.tid));
             }
             let admitted = !self.shared.is_dropped(id);
-            self.st.ev(format!("t{}:{path}{}{}", self.tid, if stale { "~" } else { "" }, if admitted { "+" } else { "-" }));
-            if admitted {
-                self.st.admits.lock().unwrap().insert(id, (path.to_string(), disc));
+            // the pool generation the admission was decided under = the last discriminant value this task read
+            if let (true, Some(pool_disc)) = (admitted, shim::my_last_discriminant_read()) {
+                if res_gen < pool_disc {
+                    self.st.taint(id, admission_cause(path, disc, pool_disc));
+                }
             }
+            self.st.ev(format!("t{}:{path}{}{}", self.tid, if stale { "~" } else { "" }, if admitted { "+" } else { "-" }));
             if admitted && stale {
                 self.st.violation(
-                    stale_key("readmit", Some((path, disc)), res_gen),
+                    self.st.stale_key("readmit", id),
                     format!(
                         "t{}: resource #{id} of generation {res_gen} (returned with discriminant {disc}) was re-admitted by a give-back that started after the refresh to generation {c0} had completed",
                         self.tid
@@ -847,12 +922,15 @@ mod conc {
                             Ok(item) => {
                                 let (id, g, disc) = (item.id, item.generation, item.discriminant());
                                 self.st.ev(format!("t{}:A{g}", self.tid));
+                                if disc > g {
+                                    self.st.taint(id, CAUSE_LABEL.to_string());
+                                }
                                 if shim::my_waits() > waits0 {
                                     self.st.label("acquire-blocked-then-served");
                                 }
                                 if g < c0 {
                                     self.st.violation(
-                                        self.st.stale_key("served", id, g),
+                                        self.st.stale_key("served", id),
                                         format!(
                                             "t{}: an acquire that started after the refresh to generation {c0} had completed handed out resource #{id} of generation {g} (item discriminant {disc})",
                                             self.tid
@@ -1051,7 +1129,7 @@ mod conc {
                 Ok(item) => {
                     if item.generation != last {
                         st.violation(
-                            st.stale_key("in-pool-at-end", item.id, item.generation),
+                            st.stale_key("in-pool-at-end", item.id),
                             format!("after all threads finished the pool holds resource #{} of generation {} while the last completed refresh is generation {last}", item.id, item.generation),
                         );
                     }
@@ -1205,7 +1283,7 @@ mod conc {
             users: vec![vec![COp::Acquire, COp::Acquire, COp::Drop(0)]],
             choices: vec![],
         };
-        some_schedule_violates(&base, "stale:item-disc-newer:")
+        some_schedule_violates(&base, &format!("stale:{CAUSE_LABEL}:"))
     }
 
     /// an item acquired around the refresh is returned while the refill is in progress
@@ -1252,7 +1330,7 @@ pub fn run(args: &Args) -> i32 {
     {
         check.require_label("acquire-blocked-then-served").require_label("timeout-fired").require_label("refresh");
         check.witness(
-            "stale:item-disc-newer:drop:readmit",
+            &stale_key(CAUSE_LABEL, "readmit"),
             "an acquire overlapping set_discriminant/clear labels an old resource with the new discriminant; it is re-admitted after the refresh",
             conc::witness_refresh_not_atomic,
         );
